@@ -72,14 +72,16 @@ Lemma enc_scalar_step simple hp fuel st v :
   enc simple hp (S fuel) st v = enc_step simple hp (enc simple hp fuel) st v.
 Proof. reflexivity. Qed.
 
-Lemma rt_value orc opts te f t w s v x :
+(* the arm-level statement: the switch arm of t's routine for the token yields the value *)
+Definition arm_rt (orc : bytes -> bytes -> option bytes) (te : tenv) (t : gtype) (w : wire) (v : gval) : Prop :=
+  exists s x, is_scalar_type t = true /\ sleaf_of t = Some s /\
+              run_action orc s (arm s w) w = SV x /\ plain (post te s t x) = true /\ same (post te s t x) v = true.
+
+Lemma rt_value orc te t w s v x :
   is_scalar_type t = true -> sleaf_of t = Some s ->
   run_action orc s (arm s w) w = SV x -> plain (post te s t x) = true -> same (post te s t x) v = true ->
-  exists y, dec_top orc opts te (S (S f)) t w = OOk y /\ same y v = true.
-Proof.
-  intros Ht Hs Hr Hp Hsame. exists (post te s t x). split; [|exact Hsame].
-  apply (dec_top_scalar_value orc opts te (S f) t w s x Ht Hs Hr Hp).
-Qed.
+  arm_rt orc te t w v.
+Proof. intros Ht Hs Hr Hp Hsame. exists s, x. repeat split; assumption. Qed.
 
 Lemma nsec_frac ns : 0 <= ns < 1000000000 -> nsec_of (frac_groups ns) = ns.
 Proof.
@@ -104,12 +106,13 @@ Proof. unfold time_fields_ok. intros H. repeat (apply andb_prop in H; destruct H
 Lemma days_in_le y mo : days_in y mo <= 31.
 Proof. unfold days_in. repeat match goal with |- context [if ?c then _ else _] => destruct c end; lia. Qed.
 
-Theorem roundtrip_scalar orc opts te simple t v fuel st' w f :
+Theorem roundtrip_scalar_arm orc te simple t v fuel st st' w :
+  (forall s, lookup_str simple st s = None) ->
   has_type orc t v = true ->
-  enc simple [] fuel einit v = EOk st' w ->
-  exists y, dec_top orc opts te (S (S f)) t w = OOk y /\ same y v = true.
+  enc simple [] fuel st v = EOk st' w ->
+  arm_rt orc te t w v.
 Proof.
-  intros Ht He. destruct fuel as [|fuel]; [discriminate|]. rewrite enc_scalar_step in He.
+  intros Hst Ht He. destruct fuel as [|fuel]; [discriminate|]. rewrite enc_scalar_step in He.
   destruct t; destruct v; try discriminate; cbn [has_type] in Ht; cbn [enc_step] in He.
   - (* bool *) inversion He; subst. destruct b; (eapply rt_value; [reflexivity|reflexivity|reflexivity|reflexivity|reflexivity]).
   - (* int *) apply andb_prop in Ht. destruct Ht as [Hk Hr].
@@ -139,14 +142,14 @@ Proof.
         [reflexivity | reflexivity | destruct k; reflexivity | destruct k; reflexivity |].
       rewrite E. replace (post te (SInt k) (TInt k) (XInt k z)) with (XInt k z) by (destruct k; reflexivity).
       cbn [same]. rewrite ikind_eqb_refl, Z.eqb_refl. reflexivity.
-  - (* float32 *) inversion He; subst. clear He. destruct f0 as [|neg|txt]; cbn [enc_float].
+  - (* float32 *) inversion He; subst. clear He. destruct f as [|neg|txt]; cbn [enc_float].
     + eapply rt_value; [reflexivity|reflexivity|reflexivity|reflexivity|reflexivity].
     + eapply rt_value; [reflexivity|reflexivity|reflexivity|reflexivity|]. cbn. destruct neg; reflexivity.
     + cbn [float_canon] in Ht. destruct (o_float orc true txt) as [[| |t']| |] eqn:Eo; try discriminate.
       assert (E : run_action orc SF32 (arm SF32 (WDouble txt)) (WDouble txt) = conv_float orc true NtF32 txt) by reflexivity.
       eapply rt_value with (x := XF32 (FFin t')); [reflexivity|reflexivity| rewrite E; unfold conv_float; rewrite Eo; reflexivity | reflexivity |].
       cbn. exact Ht.
-  - (* float64 *) inversion He; subst. clear He. destruct f0 as [|neg|txt]; cbn [enc_float].
+  - (* float64 *) inversion He; subst. clear He. destruct f as [|neg|txt]; cbn [enc_float].
     + eapply rt_value; [reflexivity|reflexivity|reflexivity|reflexivity|reflexivity].
     + eapply rt_value; [reflexivity|reflexivity|reflexivity|reflexivity|]. cbn. destruct neg; reflexivity.
     + cbn [float_canon] in Ht. destruct (o_float orc false txt) as [[| |t']| |] eqn:Eo; try discriminate.
@@ -167,7 +170,7 @@ Proof.
       assert (E : run_action orc SC128 (arm SC128 (WDouble txt)) (WDouble txt) = conv_float orc false NtC128 txt) by reflexivity.
       eapply rt_value with (x := XC128 (FFin t') fzero); [reflexivity|reflexivity| rewrite E; unfold conv_float; rewrite Eo; reflexivity | reflexivity |].
       cbn. rewrite Ht. reflexivity.
-  - (* string *) destruct (enc_string simple einit s) as [st1 w1] eqn:Es. inversion He; subst. clear He.
+  - (* string *) destruct (enc_string simple st s) as [st1 w1] eqn:Es. inversion He; subst. clear He.
     unfold enc_string in Es.
     destruct (go_utf16Length s =? 0) eqn:E0.
     { inversion Es; subst.
@@ -180,7 +183,7 @@ Proof.
     destruct (go_utf16Length s =? 1) eqn:E1.
     { inversion Es; subst.
       eapply rt_value with (x := XStr s); [reflexivity|reflexivity|reflexivity|reflexivity|]. cbn. apply bytes_eqb_refl. }
-    assert (Hl : lookup_str simple einit s = None) by (unfold lookup_str; destruct simple; reflexivity).
+    assert (Hl : lookup_str simple st s = None) by apply Hst.
     rewrite Hl in Es. inversion Es; subst. unfold string_wire.
     destruct (go_utf16Length s <? 0).
     + eapply rt_value with (x := XStr s); [reflexivity|reflexivity|reflexivity|reflexivity|]. cbn. apply bytes_eqb_refl.
@@ -243,4 +246,16 @@ Proof.
     eapply rt_value with (x := XUuid (uuid_lower txt)); [reflexivity|reflexivity| |reflexivity|].
     + change (read_src orc SUuid RGuid (WGuid txt) = SV (XUuid (uuid_lower txt))). cbn [read_src]. rewrite Hsyn. reflexivity.
     + cbn. exact Hlow.
+Qed.
+
+Theorem roundtrip_scalar orc opts te simple t v fuel st' w f :
+  has_type orc t v = true ->
+  enc simple [] fuel einit v = EOk st' w ->
+  exists y, dec_top orc opts te (S (S f)) t w = OOk y /\ same y v = true.
+Proof.
+  intros Ht He.
+  assert (Hst : forall s, lookup_str simple einit s = None) by (intros s; unfold lookup_str; destruct simple; reflexivity).
+  destruct (roundtrip_scalar_arm orc te simple t v fuel einit st' w Hst Ht He) as (s & x & Hsc & Hs & Hr & Hp & Hsame).
+  exists (post te s t x). split; [|exact Hsame].
+  apply (dec_top_scalar_value orc opts te (S f) t w s x Hsc Hs Hr Hp).
 Qed.
